@@ -189,11 +189,12 @@ class WMIExperiment(Experiment):
                             raise ValueError(f"Gate {gate_name.upper()} {type(gate)} is not performed on coupled qubits.")
             
         # check that the number of qubits is adequate
-        qubits: Sequence[Particle] = gate.particles()
+        # (taking the qubits of all instructions into account, not only of the last one)
+        qubits: Sequence[Particle] = self.circuit.particles()
         qubits_index = [q.index for q in qubits]
         if len(qubits) > self.configuration.n_qubits \
-        or min(qubits_index) < 0 \
-        or max(qubits_index) >= self.configuration.n_qubits:
+        or min(qubits_index, default=0) < 0 \
+        or max(qubits_index, default=0) >= self.configuration.n_qubits:
             self.status = ExperimentStatus.ERROR
             raise ValueError("Number of qubits exceeds maximum allowed number of qubits, or indexes are incorrect.")
 
